@@ -90,9 +90,9 @@ fn index(t: &mut Tape, len: usize) -> String {
         0 => t.below(len.max(1)).to_string(),
         1 => len.to_string(),
         2 => (len + 1 + t.below(5)).to_string(),
-        3 => "-1".to_string(),
+        3 => t.pick(&["-1", "-1", "-0", "-00"]).to_string(),
         4 => t.pick(&["x", "", "1.5", " 1", "1e2", "٣"]).to_string(),
-        _ => "18446744073709551616".to_string(),
+        _ => t.pick(&["18446744073709551616", "9223372036854775808", "18446744073709551615", "9223372036854775807", "4294967296"]).to_string(),
     }
 }
 
